@@ -516,7 +516,8 @@ fn test_{test_name}() {{
                         .append(separator)
                 }
                 TypeInner::Variant(fs) => {
-                    if as_result(fs).is_some() {
+                    // a recursive result-like variant cannot be a type alias of itself
+                    if as_result(fs).is_some() && !self.recs.contains(id) {
                         docs.append(vis)
                             .append(kwd("type"))
                             .append(name)
